@@ -15,7 +15,7 @@ def syms_text(syms):
     return "".join(SYMTEXT.get(s, s) for s in syms)
 
 
-SYMRAW = {"NSP": " ", "LF": "\n", "CR": "\r", "TAB": "\t", "NBSP": " ", "TSP": " ", "W2": " ", "W3": " ",
+SYMRAW = {"GAP": "", "NSP": " ", "LF": "\n", "CR": "\r", "TAB": "\t", "NBSP": " ", "TSP": " ", "W2": " ", "W3": " ",
           "E2": "é", "L2": "é", "P3": "—", "E4": "😀", "BS": "\\", "DEG": "º", "QUOTE": '"', "SP": " "}
 
 
@@ -161,6 +161,22 @@ def label_corpus(maxlead=4):
     return out
 
 
+def specials_corpus():
+    """characters editors and platforms put into files without being asked: a byte-order mark, zero-width and directional
+    marks, NEL / LS / VT / FF, NUL, the replacement character - at the start, after the first line, inside the last word and
+    at the end of small documents"""
+    base = ["Mix the @flour{200%g} and the eggs\n", ">> k: v\nstep one\n\nstep two\n", "---\ntitle: x\n---\nAdd @salt and ~{5%min} in #pan{}.\n",
+            "= Sec\n@a{1} -- c\n[- b -] word\n"]
+    specials = ["\ufeff", "\u200b", "\u2028", "\u0085", "\x0b", "\x0c", "\x00", "\u00ad", "\u202e", "\ufffd", "\u3000", "\u2060"]
+    out = []
+    for b in base:
+        nl = b.index("\n") + 1
+        for x in specials:
+            for t in (x + b, b[:nl] + x + b[nl:], b[:-3] + x + b[-3:], b + x, x + b.replace("\n", "\r\n")):
+                out.append(dict(text=t, src="specials"))
+    return out
+
+
 REPEATABLE = [">> k%d: v\n", "@a{%d}\n\n", "@&a{%d}\n", "= s%d\n", "@a%d @b ", "> t%d\n\n", "-- c%d\n", "[- c%d -] ",
               "@a{%d%%kg}(n) ", "~t{%d%%min} ", "#p%d{} ", "\\%d", "@&(~%d)x{} \n\n", ">> time: %dm\n", "@x|y%d{} ",
               ">> [mode]: steps\n@q%d\n", "%d ºC ", "@a{%d-9}", "k%d: v\n"]
@@ -211,6 +227,7 @@ def _corpus(ctx, want_fences=False):
     if want_fences:
         recs += fence_corpus(3 if quick else 4)
         recs += label_corpus(4 if quick else 5)
+        recs += specials_corpus()
     return recs
 
 
@@ -230,7 +247,8 @@ def _common_evidence(ctx, recs, obs, what):
                 "behaviours of MC_Lexer (BFS, exhaustive) together with the token stream CookLexer predicts; the "
                 "repository's canonical sources and bench recipes; seeded random splices/mutations of those and of a "
                 "fragment pool; metadata with located diagnostics (offending keys of a front matter behind 0..4 lines ending in "
-                "1..4-byte characters, LF and CRLF; blank-only and padded values of every checked key); " + what + ". Each input runs under Extensions::empty() and all(). "
+                "1..4-byte characters, LF and CRLF; blank-only and padded values of every checked key); small documents with a "
+                "byte-order mark, zero-width / directional marks, NEL, LS, VT, FF, NUL at their start, second line, last word and end; " + what + ". Each input runs under Extensions::empty() and all(). "
                 "non-trivial = distinct inputs of at least two characters")
     for x in obs[1000:1003] + obs[-2:]:
         ctx.sample(dict(input=syms_text(x["input"])[:200], ext=x["ext"], events=x["evk"][:12], tokens=len(x["toks"])))
@@ -325,6 +343,25 @@ def meta_boundary_corpus():
     return out
 
 
+QB_VALUES = ["0", "0.0000001", "1/3", "0.33", "3", "2 1/2", "99999", "4000000001", "1e300", "179769313486231570" + "0" * 290, "1" + "0" * 400,
+             "0.5-3", "3-0.5", "1-1" + "0" * 305, "some", "1/0", "0/1", "4294967296/3", "1 4294967296/7"]
+QB_UNITS = ["", "ml", "l", "vat", "tsp", "c", "cups", "dr", "g", "kg", "oz", "lb", "C", "\u00baF", "s", "min", "h", "d", "ae", "bag", "big vat"]
+
+
+def quantity_boundary_corpus():
+    """amounts at the edges of f64 and u32 in every unit of the extreme converter (recorder: prec::EXTREME_UNITS - ratios of
+    1e300 and 1e-300, fractions enabled everywhere with the widest limits, offsets) as ingredient, reference pair, timer,
+    inline quantity and duration"""
+    out = []
+    for v in QB_VALUES:
+        for u in QB_UNITS:
+            q = v + ("%" + u if u else "")
+            out.append(dict(text=f"@a{{{q}}} and @&a{{{q}}} then @a{{1%{u or 'g'}}} ~t{{{q}}} #p{{{v}}}\n", src="qb"))
+            if " " not in v and "/" not in v and u:
+                out.append(dict(text=f">> servings: 2|4\n>> time: {v} {u}\nHeat to {v} {u} and {v}{u}. @b{{=%{u}}} @b{{{q}}}\n", src="qb"))
+    return out
+
+
 def check_c03(ctx):
     core.build_harness()
     quick = ctx.tier == "quick"
@@ -339,6 +376,15 @@ def check_c03(ctx):
     core.write_ndjson(os.path.join(ctx.work, "programs.ndjson"), programs)
     core.run_harness(ctx, ["calls", "--in", pinb, "--programs", os.path.join(ctx.work, "programs.ndjson"), "--out", poutb, "--ext", "none,all",
                            "--conv", "e,b", "--fixed", str(len(programs))])
+    # amounts at the edges of f64 / u32 in every unit of a converter at the edges of what a units file may say, and the
+    # documents CookDoc writes (references with text / numeric / no quantity, modes, intermediate references, defects)
+    from .p_doc import gen_docs, text_of
+    walks = []
+    for cfg, k in [("MC_Doc_sim_ext.cfg", 300 if quick else 4000), ("MC_Doc_sim_canon.cfg", 150 if quick else 2000), ("MC_Doc_cw2.cfg", None)]:
+        walks += [dict(text=text_of(d), src="cookdoc") for d in (gen_docs(ctx, cfg, simulate=k) if k else gen_docs(ctx, cfg, max_n=3000 if quick else 30000))]
+    core.write_ndjson(pinb + ".q", quantity_boundary_corpus() + walks)
+    core.run_harness(ctx, ["calls", "--in", pinb + ".q", "--programs", os.path.join(ctx.work, "programs.ndjson"), "--out", poutb + ".q",
+                           "--ext", "all,compat", "--conv", "x,b", "--fixed", str(len(programs))])
     pin = os.path.join(ctx.work, "in.ndjson")
     pprog = os.path.join(ctx.work, "programs.ndjson")
     pout = os.path.join(ctx.work, "calls.ndjson")
@@ -369,8 +415,11 @@ def check_c03(ctx):
     n2, bad2, _ = core.run_judge(ctx, "Trace_Api", pout2)
     obs3 = core.read_ndjson(poutb)
     n3, bad3, _ = core.run_judge(ctx, "Trace_Api", poutb)
-    bad = [(l, nm) for l, nm in bad] + [(len(obs) + l, nm) for l, nm in bad2] + [(len(obs) + len(obs2) + l, nm) for l, nm in bad3]
-    obs = obs + obs2 + obs3
+    obs4 = core.read_ndjson(poutb + ".q")
+    n4, bad4, _ = core.run_judge(ctx, "Trace_Api", poutb + ".q")
+    bad = ([(l, nm) for l, nm in bad] + [(len(obs) + l, nm) for l, nm in bad2] + [(len(obs) + len(obs2) + l, nm) for l, nm in bad3]
+           + [(len(obs) + len(obs2) + len(obs3) + l, nm) for l, nm in bad4])
+    obs = obs + obs2 + obs3 + obs4
     bad.sort(key=lambda b: len(obs[b[0] - 1]["input"]))
     for line, names in bad:
         x = obs[line - 1]
@@ -389,7 +438,9 @@ def check_c03(ctx):
     ctx.rule = ("inputs: exhaustive short strings over the 35-symbol token alphabet (finished behaviours of MC_Lexer), "
                 "repository recipes, seeded random splices, fence/front-matter families, boundary metadata values; each "
                 "input x {no extensions, all, compat} x {empty, bundled converter} runs three standard API programs and "
-                "rotating TLC-generated programs of the CookApi protocol (MC_Api) with a per-input watchdog. "
+                "rotating TLC-generated programs of the CookApi protocol (MC_Api) with a per-input watchdog; amounts at the edges "
+                "of f64 / u32 in every unit of an extreme converter (ratios 1e300 and 1e-300, fractions everywhere with the widest "
+                "limits, offsets) and CookDoc's generated documents (random walks and the cookware reference kernel) run every program. "
                 "evaluations = input x configuration x program runs; non-trivial = distinct inputs of >= 2 characters")
     ctx.extra["programs"] = len(programs)
     ctx.extra["exhaustive"] = True
@@ -412,7 +463,7 @@ def replay_c03(ctx, case):
         from . import p_parser
         return p_parser.replay(ctx, case, "C03")
     core.run_harness(ctx, ["calls", "--in", pin, "--programs", pprog, "--out", pout, "--ext", "none,all,compat,2,1770,3786,3298,64,2730",
-                           "--conv", "e,b", "--fixed", "4"])
+                           "--conv", "e,b,x", "--fixed", "4"])
     obs = core.read_ndjson(pout)
     n, bad, _ = core.run_judge(ctx, "Trace_Api", pout)
     for line, names in bad:
